@@ -191,6 +191,8 @@ class AndersonCD(BaseSolver):
                              penalty.value(w[:n_features]))
                     p_obj_acc = (datafit.value(y, w_acc[:n_features], Xw_acc) +
                                  penalty.value(w_acc[:n_features]))
+                    if _verif.ENABLED:
+                        _verif.emit("accept", p_obj=p_obj, p_obj_acc=p_obj_acc)
 
                     if p_obj_acc < p_obj:
                         w[:], Xw[:] = w_acc, Xw_acc
